@@ -8,7 +8,7 @@ for d in */; do
   id="${d%/}"
   prop=$(python3 -c "import json;print(json.load(open('/verif/seeded/$id/meta.agent.json')).get('property','${id:0:3}'))" 2>/dev/null || echo "${id:0:3}")
   others=$(grep -o ' C[0-9][0-9] exit' "/verif/seeded/$id/runs.txt" 2>/dev/null | awk '{print $1}' | sort -u | grep -v "^$prop$" | tr '\n' ' ')
-  echo "$id $prop $others"
+  echo "$id $prop $others" | sed "s/ *$//"
 done > /tmp/km-jobs.txt
 run_one() {
   id="$1"; shift
